@@ -9,8 +9,9 @@ import time
 import traceback
 
 VERIF = os.path.dirname(os.path.dirname(os.path.abspath(__file__)))
-EVIDENCE_DIR = os.path.join(VERIF, 'evidence')
-REPLAY_DIR = os.path.join(VERIF, 'replays')
+_OUT = os.environ.get('FBV_OUT_DIR') or VERIF          # selftest redirects evidence / replays of mutant runs
+EVIDENCE_DIR = os.path.join(_OUT, 'evidence')
+REPLAY_DIR = os.path.join(_OUT, 'replays')
 KF_FILE = os.path.join(VERIF, 'known_findings.json')
 
 
